@@ -217,8 +217,7 @@ def run_history(cfg, ops):
                 raise ValueError(kind)
             feed()
             if tainted[0]:
-                flags.add('stopped:reduce-only-order-survived-a-flip')
-                break
+                flags.add('reduce-only-order-survived-a-flip')
             compare(what)
             if vios:
                 break
@@ -252,8 +251,7 @@ def session_replay(spec):
             if e['phase'] == 'liquidation':
                 flags.add('liquidation-fill')
             if model.last_effect == 'flip' and any(o[0] == sym_ and o[4] for o in model.resting.values()):
-                flags.add('stopped:reduce-only-order-survived-a-flip')
-                break
+                flags.add('reduce-only-order-survived-a-flip')
         elif e['ev'] == 'hook' and 'accounts' in e:
             acc_ = e['accounts']
             for sym, p in acc_['positions'].items():
